@@ -3,5 +3,6 @@ CONSTANTS N = 6
  MaxRetry = 1
  MaxFaults = 2
  FormatBug = FALSE
+ Stalls = FALSE
 INVARIANTS Emit
 CHECK_DEADLOCK FALSE
